@@ -4,7 +4,7 @@
    after which only blank lines remain would itself be the last block. *)
 From Coq Require Import ZArith List Bool Lia.
 From Mistletoe Require Import Base.Sx Base.PyStr Base.PyText Gen.GenConfig Model.Tree Model.CoreTokens Model.Block
-     Proofs.BlockProgress Proofs.Independence Proofs.Independence2 Proofs.BlankLines.
+     Proofs.BlockProgress Proofs.Independence Proofs.Independence2 Proofs.BlankLines Proofs.ListEnds.
 Import ListNotations.
 Local Open Scope Z_scope.
 
@@ -128,6 +128,123 @@ Qed.
 Example closed_last_somewhere :
   let A := [ $"    code" ++ [10]; [10]; $"```" ++ [10]; $"x" ++ [10]; $"```" ++ [10]; $"<div>" ++ [10]; [10]; $"# h" ++ [10]; $"para" ++ [10] ] in
   stable_run4 block_types_html (tokenize_block block_types_html 5) (S (length A)) A 1 (mkPs true) = true /\
+  closed_last (entries (tokenize_block block_types_html 6 A 1 (mkPs true))) = true /\
+  length (entries (tokenize_block block_types_html 6 A 1 (mkPs true))) = 5%nat.
+Proof. vm_compute. repeat split; reflexivity. Qed.
+
+(* ================= the list flag derived too ================= *)
+(* For lines as Document prepares them (Proofs/ListEnds.v: proper) a top-level list whose reading ran off the
+   end of A is followed by blank lines only, so it would be A's last block: with a closed last block every
+   list of A was ended by a line of A.  What remains is the property's own hypothesis and "no link definitions". *)
+Section Level5.
+  Variable types : list block_kind.
+  Variable rec : list str -> Z -> pstate -> list pre * bool * pstate.
+  Hypothesis Hnb : no_blankline_kind types = true.
+
+  Lemma start_read_list_only k after ln st p c st' :
+    start_read types rec k after ln st = Some (p, c, st') -> is_plist p = true -> k = BK_List.
+  Proof.
+    destruct after as [|x X]; [discriminate|]. intros H Hl.
+    destruct k; cbn [start_read] in H; try reflexivity.
+    - destruct (blockcode_start x); [|discriminate]. destruct (blockcode_read (x :: X)). injection H as <- _ _. discriminate.
+    - destruct (heading_start x) as [[[? ?] ?]|]; [|discriminate]. injection H as <- _ _. discriminate.
+    - destruct (quote_start x); [|discriminate]. destruct (quote_lines types (x :: X)).
+      destruct (rec _ _ _) as [[? ?] ?]. injection H as <- _ _. discriminate.
+    - destruct (codefence_start x) as [[[[i l] f] g]|]; [|discriminate]. destruct (fence_loop X i l [] 1%nat). injection H as <- _ _. discriminate.
+    - destruct (thematic_start x); [|discriminate]. injection H as <- _ _. discriminate.
+    - destruct (table_start x); [|discriminate]. destruct (table_read (x :: X)); [|discriminate]. injection H as <- _ _. discriminate.
+    - destruct (footnote_start x); [|discriminate]. destruct (footnote_read (x :: X)) as [[? ?]|]; [|discriminate]. injection H as <- _ _. discriminate.
+    - destruct (paragraph_start x); [|discriminate]. destruct (para_loop _ _ _ _ _) as [[? ?] []]; injection H as <- _ _; discriminate.
+    - destruct (htmlblock_start x) as [[? e]|]; [|discriminate]. destruct (html_loop (x :: X) e [] 0%nat). injection H as <- _ _. discriminate.
+    - destruct (blankline_start x); [|discriminate]. injection H as <- _ _. discriminate.
+    - destruct (footnote_start x); [|discriminate]. destruct (footnote_read (x :: X)) as [[? ?]|]; [|discriminate]. injection H as <- _ _. discriminate.
+  Qed.
+
+  Lemma try_types_list after ln st p c st' : forall ts,
+    try_types types rec ts after ln st = Some (p, c, st') -> is_plist p = true ->
+    start_read types rec BK_List after ln st = Some (p, c, st').
+  Proof.
+    induction ts as [|k ts IH]; intros H Hl; [discriminate|]. cbn [try_types] in H.
+    destruct (start_read types rec k after ln st) as [[[p0 c0] s0]|] eqn:E; [|apply IH; assumption].
+    injection H as -> -> ->. rewrite <- (start_read_list_only _ _ _ _ _ _ _ E Hl). exact E.
+  Qed.
+
+  Definition step_ok5 (p : pre) : bool := negb (is_pfootnote p).
+
+  Fixpoint stable_run5 (n : nat) (A : list str) (ln : Z) (st : pstate) : bool :=
+    match n with
+    | O => true
+    | S n' =>
+      match A with
+      | [] => true
+      | _ :: rest =>
+        match try_types types rec types A ln st with
+        | Some (p, c, st') =>
+          step_ok5 p && (match c with O => false | _ => stable_run5 n' (skipn c A) (ln + nlines c) st' end)
+        | None => stable_run5 n' rest (ln + 1) st
+        end
+      end
+    end.
+
+  Lemma flags_or_open_end5 : forall n A ln acc lo st,
+    Forall proper A -> (length A < n)%nat -> stable_run5 n A ln st = true ->
+    stable_run3 types rec n A ln st = true \/
+    exists new p, fst (fst (dispatch_loop types rec n A ln acc lo st)) = rev acc ++ new ++ [p] /\ closed_pre p = false.
+  Proof.
+    induction n as [|n IH]; intros A ln acc lo st Hp Hl H5; [lia|].
+    destruct A as [|x X]; [left; reflexivity|].
+    cbn [stable_run5] in H5. cbn [stable_run3 dispatch_loop].
+    destruct (try_types types rec types (x :: X) ln st) as [[[p c] st']|] eqn:E.
+    - apply andb_true_iff in H5 as [H5 Hrest]. destruct c as [|c]; [discriminate|].
+      assert (Hlen : (length (skipn (S c) (x :: X)) < n)%nat) by (rewrite skipn_length; cbn [length] in *; lia).
+      assert (Hps : Forall proper (skipn (S c) (x :: X))) by (apply Forall_skipn; exact Hp).
+      destruct (step_ok3 types rec p (S c) (x :: X) ln st) eqn:E3.
+      + destruct (IH (skipn (S c) (x :: X)) (ln + nlines (S c)) (p :: acc) lo st' Hps Hlen Hrest) as [L|(new & q & En & Hq)].
+        * left. rewrite L. reflexivity.
+        * right. exists (p :: new), q. split; [|exact Hq]. rewrite En. cbn [rev]. rewrite <- !app_assoc. reflexivity.
+      + right. unfold step_ok3 in E3. apply orb_false_iff in E3 as [E3 El]. apply orb_false_iff in E3 as [Ec Ef].
+        unfold step_ok5 in H5. apply negb_true_iff in H5.
+        assert (Hblank : has_nonblank (skipn (S c) (x :: X)) = false).
+        { destruct (is_plist p) eqn:Ep.
+          - cbn [andb] in El. apply negb_false_iff in El.
+            apply (list_ran_off_is_last types rec x X ln st p (S c) st' Hp El). apply (try_types_list _ _ _ _ _ _ types E Ep).
+          - pose proof (try_types_cases types rec _ _ _ _ _ _ types Hnb E) as C. rewrite Ec, Ep, H5 in C. cbn [orb] in C. rewrite !orb_false_r in C.
+            rewrite C in Ef. cbn [andb] in Ef. exact Ef. }
+        destruct (dispatch_blanks types rec Hnb (skipn (S c) (x :: X)) n (ln + nlines (S c)) (p :: acc) lo st' Hblank Hlen) as [D _].
+        exists [], p. split; [|exact Ec]. rewrite D. cbn [rev app]. reflexivity.
+    - assert (Hlen : (length X < n)%nat) by (cbn [length] in Hl; lia).
+      inversion Hp as [|? ? _ HpX]; subst.
+      destruct (IH X (ln + 1) acc true st HpX Hlen H5) as [L|R]; [left; exact L|right; exact R].
+  Qed.
+
+  Theorem closed_last_gives_flags5 n A ln st :
+    Forall proper A -> (length A < n)%nat -> stable_run5 n A ln st = true ->
+    closed_last (fst (fst (dispatch_loop types rec n A ln [] false st))) = true ->
+    stable_run3 types rec n A ln st = true.
+  Proof.
+    intros Hp Hl H5 Hc. destruct (flags_or_open_end5 n A ln [] false st Hp Hl H5) as [L|(new & p & E & Hq)]; [exact L|].
+    rewrite E in Hc. cbn [rev app] in Hc. unfold closed_last in Hc. rewrite last_app_cons in Hc. rewrite Hq in Hc. discriminate.
+  Qed.
+End Level5.
+
+(* C05 with the property's hypotheses and nothing else: the lines are Document's (each ends with its only newline), A's last
+   block is closed, no top-level block of A is a link-definition block *)
+Theorem last_block_closed_independent types f A B st :
+  no_blankline_kind types = true -> Forall proper A ->
+  stable_run5 types (tokenize_block types f) (S (length A)) A 1 st = true ->
+  closed_last (entries (tokenize_block types (S f) A 1 st)) = true ->
+  let '(esA, _, stA) := tokenize_block types (S f) A 1 st in
+  entries (tokenize_block types (S f) (A ++ NL :: B) 1 st) =
+  esA ++ map (shift_pre (Z.of_nat (length A) + 1)) (entries (tokenize_block types (S f) B 1 stA)).
+Proof.
+  intros Hnb Hp H5 Hc. apply any_blocks_independent; [exact Hnb|].
+  apply (closed_last_gives_flags5 types (tokenize_block types f) Hnb); [exact Hp|lia|exact H5|exact Hc].
+Qed.
+
+(* non-vacuity: lists (one of them nested, one with an item of blank content) before the closing paragraph *)
+Example last_block_closed_somewhere :
+  let A := [ $"- a" ++ [10]; $"- b" ++ [10]; [10]; $"  c" ++ [10]; $"1. x" ++ [10]; $"   - y" ++ [10]; [10]; $"+" ++ [10]; [10]; $"```" ++ [10]; $"z" ++ [10]; $"```" ++ [10]; $"para" ++ [10] ] in
+  stable_run5 block_types_html (tokenize_block block_types_html 5) (S (length A)) A 1 (mkPs true) = true /\
   closed_last (entries (tokenize_block block_types_html 6 A 1 (mkPs true))) = true /\
   length (entries (tokenize_block block_types_html 6 A 1 (mkPs true))) = 5%nat.
 Proof. vm_compute. repeat split; reflexivity. Qed.
